@@ -58,7 +58,7 @@ func tmpdirBoth(ctx *Ctx, w *Worker, id ident) (tdRes, bool) {
 }
 
 func checkC14(ctx *Ctx) {
-	ctx.Res.Rule = "task identities (process name, in-port paths, sub-stream members, params, tags): all combinations over a small alphabet (names x 0-2 in-ports x paths x 0-2 params x values x 0-1 tags) plus random large ones (long names, many ports, nested / absolute / ../ paths); every identity: real Task.TempDir() vs Lean prefix + sha1(Lean preimage), segment validity, stability on repetition; all pairs of distinct identities: equal temp dir => violation. Non-trivial = at least one input, parameter or tag; distinct by identity."
+	ctx.Res.Rule = "task identities (process name, in-port paths, sub-stream members, params, tags): all combinations over a small alphabet (names x 0-2 in-ports x paths x 0-2 params x values x 0-1 tags) plus random large ones (long names, many ports, nested / absolute / ../ paths); every identity: real Task.TempDir() vs Lean prefix + sha1(Lean preimage), segment validity, stability on repetition; all pairs of distinct identities: equal temp dir => violation. Non-trivial = at least one input, parameter or tag; distinct by identity; also: every process-name length across the 255-byte limit; validity of the real name is judged whatever the model says."
 	w := &Worker{}
 	defer w.Close()
 	r := NewRng(ctx.Seed)
